@@ -49,26 +49,26 @@ func freeAddr(t *testing.T) string {
 func newWsWorld(t *testing.T) *wsWorld {
 	encOnce.Do(func() { encTxConfig = chainappEncoding() })
 	f := newFakeWS(t)
-	cfg := config.DefaultConfig()
-	cfg.JSONRPC.Address = freeAddr(t) // nothing listens there: non-subscription calls get an error response
-	cfg.JSONRPC.WsAddress = freeAddr(t)
 	clientCtx := client.Context{}.WithTxConfig(encTxConfig)
-	srv := evrpc.NewWebsocketsServer(clientCtx, newSigLogger(), f.client(), cfg)
-	srv.Start()
-	w := &wsWorld{t: t, f: f, addr: cfg.JSONRPC.WsAddress}
-	dl := time.Now().Add(20 * time.Second)
-	for {
-		c, err := net.Dial("tcp", w.addr)
-		if err == nil {
-			_ = c.Close()
-			break
+	// the port is chosen, released and then bound by the server: another process may take it in between -> try again
+	for attempt := 0; attempt < 6; attempt++ {
+		cfg := config.DefaultConfig()
+		cfg.JSONRPC.Address = freeAddr(t) // nothing listens there: non-subscription calls get an error response
+		cfg.JSONRPC.WsAddress = freeAddr(t)
+		srv := evrpc.NewWebsocketsServer(clientCtx, newSigLogger(), f.client(), cfg)
+		srv.Start()
+		w := &wsWorld{t: t, f: f, addr: cfg.JSONRPC.WsAddress}
+		dl := time.Now().Add(3 * time.Second)
+		for time.Now().Before(dl) {
+			if c, err := w.dial(); err == nil { // a websocket handshake, not just an open port
+				_ = c.Close()
+				return w
+			}
+			time.Sleep(time.Millisecond)
 		}
-		if time.Now().After(dl) {
-			t.Fatalf("websocket server did not start: %v", err)
-		}
-		time.Sleep(time.Millisecond)
 	}
-	return w
+	t.Fatalf("websocket server did not start on a free loopback port")
+	return nil
 }
 
 func (w *wsWorld) dial() (*websocket.Conn, error) {
